@@ -118,7 +118,39 @@ def classes():
             else:
                 self.r.put((v + 1) << self.r.getWidth())
 
-    _CLS.update(Box=Box, PutReg=PutReg, DoublePrepare=DoublePrepare, DoublePut=DoublePut)
+    class PadPrepare(py4hw.Logic):
+        """user-style CLOCKED block that drives a pad (bidirectional wire, InOut port) with prepare(): a free running
+        counter wider than the pad (step may be negative), optionally offset by an input wire."""
+
+        def __init__(self, parent, name, pad, a=None, step=7, start=0):
+            super().__init__(parent, name)
+            self.pad = self.addInOut('pad', pad)
+            self.a = self.addIn('a', a) if a is not None else None
+            self.step = step
+            self.count = start
+
+        def clock(self):
+            self.count += self.step
+            v = self.count
+            if self.a is not None:
+                v += self.a.get() << 1
+            self.pad.prepare(v)
+
+    class PadPut(py4hw.Logic):
+        """user-style COMBINATIONAL block that drives a pad (bidirectional wire, InOut port) with put(): a*k - off,
+        i.e. oversized and negative raw values."""
+
+        def __init__(self, parent, name, pad, a, k=3, off=5):
+            super().__init__(parent, name)
+            self.pad = self.addInOut('pad', pad)
+            self.a = self.addIn('a', a)
+            self.k = k
+            self.off = off
+
+        def propagate(self):
+            self.pad.put(self.a.get() * self.k - self.off)
+
+    _CLS.update(Box=Box, PutReg=PutReg, DoublePrepare=DoublePrepare, DoublePut=DoublePut, PadPrepare=PadPrepare, PadPut=PadPut)
     return _CLS
 
 
@@ -239,6 +271,10 @@ NATIVE = {
                  lambda p, par, n, a, k, s: p.BidirBuf(par, n, a['pin'], a['pout'], a['poe'], a['bidir'])),
     'DoublePrepare': (('a',), ('r',), True, False,
                       lambda p, par, n, a, k, s: classes()['DoublePrepare'](par, n, a['a'], a['r'], mode=k.get('mode', 0))),
+    'PadPrepare': (('a',), (), True, False,
+                   lambda p, par, n, a, k, s: classes()['PadPrepare'](par, n, a['pad'], a.get('a'), step=k.get('step', 7), start=k.get('start', 0))),
+    'PadPut': (('a',), (), False, True,
+               lambda p, par, n, a, k, s: classes()['PadPut'](par, n, a['pad'], a['a'], k=k.get('k', 3), off=k.get('off', 5))),
     'DoublePut': (('a',), ('r',), False, True,
                   lambda p, par, n, a, k, s: classes()['DoublePut'](par, n, a['a'], a['r'], mode=k.get('mode', 0))),
     'Waveform': (('w0', 'w1', 'w2', 'w3'), (), True, False,
